@@ -8,6 +8,17 @@ Stage B (correspondence with the Lean model Ptn.C14): adjacency lists built by `
 Stage C (oracle): an own augmenting-path maximum matching (Kuhn) gives the maximum matching size;
 the returned sets must touch every edge, contain only existing vertices and have that combined
 size; the internal matching must consist of pairwise vertex-disjoint edges of the graph.
+
+Order independence (Lean: `mvc_order_independent`, `hk_matching_maximum_order_independent`,
+`mvc_cover_graph_determined`):
+ * every case is also sent to the model with a non-ascending enumeration policy of the three Python
+   sets (`C14 coverord ka ku kv …`); the answer must be the `cover` line;
+ * "permutation groups": the same edge set is fed to the library and to the model in every order of the
+   entry list (exhaustive for <= 4 distinct edges, random beyond) and with duplicated entries. Per order
+   the exact lists are compared with the model (the algorithm is deterministic per order); over the
+   group the SET of covers returned by the library must equal the model's set, which by the theorem is a
+   single pair although the internal matchings differ; the oracle demands only what the property
+   demands (every returned cover valid and of maximum-matching size).
 """
 from __future__ import annotations
 
@@ -21,18 +32,19 @@ RULE = ("cases: every edge set on sides a x b (quick: a,b <= 3 in canonical, rev
         "entry order plus 3x4, 4x3 canonical; thorough: a,b <= 4 plus 5x2, 2x5, 6x2, 2x6, 5x3, 3x5); random "
         "graphs up to 12x12 (uniform density, sparse, dense, planted isolated vertices, long vertex-disjoint "
         "paths, crowns, unbalanced, near-perfect, hub layers), entry order shuffled, entries duplicated; a few "
-        "malformed inputs (constructor asserts); corpus of mutation witnesses first. non-trivial = distinct "
+        "malformed inputs (constructor asserts); corpus of mutation witnesses first; permutation groups: every "
+        "order of the entry list of every edge set with 2..4 edges (quick: sides <= 3, thorough: sides <= 4) plus "
+        "duplicated entries, and random orders of random graphs; every case additionally under a non-ascending "
+        "enumeration policy of the Python sets (model only). non-trivial = distinct "
         "(sides, entry list) with at least one edge for which first-fit greedy matching in adjacency order is "
         "not maximum, or the cover uses both sides, or entries are duplicated")
 PARTIAL = ["Python exceptions for missing dict keys / list indices are not modelled (the model uses total "
            "functions; every key read is written before); an exception on the implementation side is an "
            "oracle failure",
-           "Python sets are modelled by ascending lists (sorted(list(set)) = the list); the iteration order "
-           "of the set `alist` is not modelled (the result does not depend on it: per-start visited lists, "
-           "commuting set updates) - validated by correspondence only"]
-ASSUMPTIONS = ["iteration order of the Python set `alist` does not influence the result (visited lists are "
-               "per start, set updates commute)",
-               "asserts are enabled (no python -O)"]
+           "CPython's actual enumeration order of a set cannot be chosen from outside (for small ints it is "
+           "ascending); the model is parametrised by the order and proved independent of it "
+           "(mvc_order_independent), the library is run with the order CPython picks"]
+ASSUMPTIONS = ["asserts are enabled (no python -O)"]
 
 CASE_TIMEOUT_S = 30.0   # generous: the machine may be heavily loaded; a genuine non-termination still trips it
 MAX_TIMEOUTS = 3      # after that many non-terminating cases the run stops (failures are recorded)
@@ -204,10 +216,31 @@ MALFORMED = [
 ]
 
 
+def group_cases(rng, amax, kmax=4):
+    """Every edge set with 2..kmax edges on sides <= amax, to be run in every order of the entry list."""
+    for a in range(1, amax + 1):
+        for b in range(1, amax + 1):
+            cells = [(u, v) for u in range(a) for v in range(b)]
+            for k in range(2, min(kmax, a * b) + 1):
+                for sub in itertools.combinations(cells, k):
+                    yield {"nU": a, "nV": b, "edges": [list(e) for e in sub],
+                           "group": {"mode": "all", "seed": rng.randrange(1 << 30), "dups": 3 if k < 4 else 2}}
+
+
 def gen_cases(ctx):
     rng = ctx.rng
     cases = []
     big = ctx.tier == "thorough" or ctx.scale > 1
+    grng = ctx.subrng("groups")
+    cases.extend(group_cases(grng, 4 if big else 3))
+    for _ in range(ctx.n(150, 3000)):
+        c = random_case(grng)
+        c["edges"] = sorted(set((int(u), int(v)) for u, v in c["edges"]))
+        c["edges"] = [list(e) for e in c["edges"]]
+        c["group"] = {"mode": "random", "seed": grng.randrange(1 << 30), "n": 6}
+        cases.append(c)
+    ctx.notes["permutation_groups"] = ("every order of the entry list for every edge set with 2..4 edges on sides <= "
+                                       + ("4" if big else "3") + " (+ duplicated entries); 6 random orders of random graphs")
     if big:
         cases.extend(exhaustive_cases(rng, 4, 1))
         for (a, b) in ((5, 2), (2, 5), (6, 2), (2, 6), (5, 3), (3, 5)):
@@ -234,10 +267,59 @@ def gen_cases(ctx):
 
 # ------------------------------------------------------------------ running
 
-def _lines(case):
+def _policy(case):
+    """Enumeration policies (alist, list(u_cover), list(v_cover)) derived from the case; never all ascending."""
+    h = 7 * int(case["nU"]) + 13 * int(case["nV"])
+    for i, (u, v) in enumerate(case["edges"]):
+        h += (i + 1) * (3 * int(u) + 5 * int(v) + 1)
+    return 1 + h % 4, (h // 4) % 5, (h // 20) % 5
+
+
+def _lines1(case):
     toks = " ".join(f"{int(u)}:{int(v)}" for u, v in case["edges"])
     head = f"{int(case['nU'])} {int(case['nV'])}" + (" " + toks if toks else "")
-    return [f"C14 graph {head}", f"C14 cover {head}"]
+    ka, ku, kv = _policy(case)
+    return [f"C14 graph {head}", f"C14 cover {head}", f"C14 coverord {ka} {ku} {kv} {head}"]
+
+
+def group_variants(case):
+    """The entry lists of a permutation group (identity order first), fully determined by the case."""
+    import random as _random
+    edges = [[int(u), int(v)] for u, v in case["edges"]]
+    grp = case["group"]
+    rng = _random.Random(int(grp.get("seed", 0)))
+    out = [list(edges)]
+    if grp.get("mode") == "all":
+        perms = [list(p) for p in itertools.permutations(edges)]
+        out.extend(perms[1:])
+        ndupv = min(int(grp.get("dups", 3)), len(perms))
+        for p in rng.sample(perms, ndupv):
+            q = list(p)
+            for _ in range(rng.randint(1, 3)):
+                q.insert(rng.randint(0, len(q)), list(rng.choice(edges)))
+            out.append(q)
+    else:
+        for k in range(int(grp.get("n", 6))):
+            q = list(edges)
+            rng.shuffle(q)
+            if k % 2 == 1 and edges:
+                for _ in range(rng.randint(1, 3)):
+                    q.insert(rng.randint(0, len(q)), list(rng.choice(edges)))
+            out.append(q)
+    return out
+
+
+def _subcases(case):
+    if case.get("group"):
+        return [{"nU": case["nU"], "nV": case["nV"], "edges": ev} for ev in group_variants(case)]
+    return [case]
+
+
+def _lines(case):
+    out = []
+    for c in _subcases(case):
+        out.extend(_lines1(c))
+    return out
 
 
 def run(ctx):
@@ -252,15 +334,18 @@ def run(ctx):
             corpus.append(c.get("case", c))
     cases = corpus + gen_cases(ctx)
     lines = []
+    spans = []
     for c in cases:
-        lines.extend(_lines(c))
+        ls = _lines(c)
+        spans.append((len(lines), len(lines) + len(ls)))
+        lines.extend(ls)
     outs = ctx.lean.batch(lines)
     old = signal.signal(signal.SIGALRM, _alarm)
     try:
-        for i, c in enumerate(cases):
+        for (lo, hi), c in zip(spans, cases):
             if ctx.time_left() < 0 or _timeouts[0] >= MAX_TIMEOUTS:
                 break
-            run_case(ctx, c, (outs[2 * i], outs[2 * i + 1]))
+            run_case(ctx, c, tuple(outs[lo:hi]))
     finally:
         signal.setitimer(signal.ITIMER_REAL, 0)
         signal.signal(signal.SIGALRM, old)
@@ -322,7 +407,10 @@ def run_case(ctx, case, model_out=None):
     else:
         prev = None
     try:
-        _run_case(ctx, case, model_out)
+        if case.get("group"):
+            _run_group(ctx, case, model_out)
+        else:
+            _run_case(ctx, case, model_out)
     finally:
         if prev is not None:
             signal.setitimer(signal.ITIMER_REAL, 0)
@@ -333,8 +421,55 @@ def _fmt_list(xs):
     return ",".join(str(x) for x in xs)
 
 
+def _parse_cover_line(line):
+    """`M=…;U=…;V=…[;cert=…]` -> (matching size, (U tuple, V tuple)) or None."""
+    if not line.startswith("M="):
+        return None
+    parts = dict(x.split("=", 1) for x in line.split(";"))
+    M = [x for x in parts.get("M", "").split(",") if x]
+    cu = tuple(int(x) for x in parts.get("U", "").split(",") if x)
+    cv = tuple(int(x) for x in parts.get("V", "").split(",") if x)
+    return len(M), (cu, cv)
+
+
+def _run_group(ctx, case, model_out):
+    """One edge set in many entry orders: every order is a full case of its own; over the group the set of
+    covers of the library must be the set of covers of the model (a single pair: mvc_cover_graph_determined)."""
+    subs = _subcases(case)
+    impl_covers, model_covers, impl_msizes, model_msizes, impl_matchings = set(), set(), set(), set(), set()
+    complete = True
+    for k, sub in enumerate(subs):
+        res = _run_case(ctx, sub, tuple(model_out[3 * k:3 * k + 3]))
+        if res is None:
+            complete = False
+            continue
+        pm = _parse_cover_line(model_out[3 * k + 1])
+        if pm is not None:
+            model_msizes.add(pm[0])
+            model_covers.add(pm[1])
+        if "cover" in res and "matching" in res:
+            impl_covers.add((tuple(res["cover"][0]), tuple(res["cover"][1])))
+            impl_msizes.add(len(res["matching"]))
+            impl_matchings.add(tuple(sorted(res["matching"])))
+        else:
+            complete = False
+    ctx.tally("group_orders", len(subs) if len(subs) <= 8 else (">8" if len(subs) <= 27 else ">27"))
+    ctx.tally("group_distinct_matchings", len(impl_matchings))
+    ctx.tally("group_distinct_covers", len(impl_covers))
+    if len(model_covers) > 1 or len(model_msizes) > 1:
+        ctx.corr_fail(case, f"model returns different covers / matching sizes for reordered entries: covers={sorted(model_covers)} "
+                            f"sizes={sorted(model_msizes)} (contradicts mvc_cover_graph_determined)")
+    if complete and impl_covers != model_covers:
+        ctx.corr_fail(case, f"set of covers over all entry orders: impl={sorted(impl_covers)} model={sorted(model_covers)}")
+    if complete and impl_msizes != model_msizes:
+        ctx.corr_fail(case, f"matching sizes over all entry orders: impl={sorted(impl_msizes)} model={sorted(model_msizes)}")
+
+
 def _run_case(ctx, case, model_out):
-    m_graph, m_cover = model_out
+    m_graph, m_cover, m_ord = model_out
+    if m_ord != m_cover:
+        ctx.corr_fail(case, f"model: enumeration policy {_policy(case)} of the Python sets changes the answer: "
+                            f"{m_ord} vs ascending {m_cover} (contradicts mvc_order_independent)")
     nU, nV = int(case["nU"]), int(case["nV"])
     edges = [(int(u), int(v)) for u, v in case["edges"]]
     res = _impl(case)
@@ -348,11 +483,11 @@ def _run_case(ctx, case, model_out):
         impl = res.get("graph_error", "accepted")
         if impl != m_graph or m_cover != m_graph:
             ctx.corr_fail(case, f"malformed input: impl={impl} model graph={m_graph} cover={m_cover}")
-        return
+        return None
     if "graph_error" in res:
         ctx.count(key, nontrivial=False, corr=True)
         ctx.oracle_fail(case, "BipartiteGraph refused a well-formed input (AssertionError)")
-        return
+        return None
 
     eset = set(edges)
     nmax = max_matching_size(nU, nV, edges)
@@ -420,12 +555,20 @@ def _run_case(ctx, case, model_out):
         ctx.sample({"nU": nU, "nV": nV, "edges": [list(e) for e in edges]}, 4)
     if probs:
         ctx.oracle_fail(case, "; ".join(probs[:3]))
+    return res
 
 
 def shrink(case):
     nU, nV = int(case["nU"]), int(case["nV"])
     edges = [list(e) for e in case["edges"]]
     base = {"nU": nU, "nV": nV}
+    if case.get("group"):
+        base["group"] = dict(case["group"])
+        if len(edges) > 4:
+            base["group"]["mode"] = "random"
+        # first try the single orders of the group
+        for ev in group_variants(case):
+            yield {"nU": nU, "nV": nV, "edges": ev}
     # drop the highest vertex of a side if unused
     if nU > 1 and all(u != nU - 1 for u, _ in edges):
         yield dict(base, nU=nU - 1, edges=edges)
